@@ -2130,3 +2130,10 @@ fn not_found(lane_name: Option<&str>, response_tx: HttpResponseSender) {
         error!("HTTP connection was terminated before the response cound be sent.");
     }
 }
+
+#[cfg(feature = "verif_hooks")]
+pub mod verif_hooks {
+    pub use super::links::{Links, TriggerUnlink};
+    pub use super::remotes::verif_hooks::*;
+    pub use super::write_fut::{SpecialAction, WriteAction, WriteResult, WriteTask};
+}
